@@ -185,7 +185,8 @@ def full_view(cal):
         "S": (type(sch).__name__, getattr(sch, "_batch_id", None),
               tuple((type(s).__name__, getattr(s, "tok_uid", None), getattr(s, "tok_calls", None), s.random_state, s.batch_size,
                      s.max_deduplication_passes) for s in sch.samplers)),
-        "L": (type(cal.loss_function).__name__, tuple(cal.loss_function.palette), cal.loss_function.salt),
+        "L": (type(cal.loss_function).__name__, tuple(float(x).hex() for x in cal.loss_function.palette),   # hex: nan == nan
+              cal.loss_function.salt, sorted(k for k in vars(cal.loss_function) if k not in ("palette", "salt", "bad"))),
         "R": (arr(cal.params_samp), arr(cal.losses_samp), arr(cal.batch_num_samp), arr(cal.method_samp)),
         "H": arr(cal.series_samp),
     }
@@ -205,6 +206,8 @@ def h5_rows(cal):
 def make_calibrator(spec):
     from black_it.calibrator import Calibrator
 
+    if spec.get("rich"):
+        return make_rich(spec)
     cc.G.update(fault=None, model_calls=0, loss_calls=0)
     loss = cc.TokLoss(spec["palette"], spec["salt"])
     samplers = [cc.make_sampler(s) for s in spec["samplers"]]
@@ -223,6 +226,23 @@ def apply_ops(cal, ops):
                 cal.calibrate(op[1])
             elif op[0] == "set_samplers":
                 cal.set_samplers([cc.make_sampler(s) for s in op[1]])
+            elif op[0] == "set_attr":         # a public attribute reassigned after construction
+                target = {"cal": cal, "loss": cal.loss_function, "sampler0": cal.scheduler.samplers[0]}[op[1]]
+                setattr(target, op[2], op[3])
+            elif op[0] == "edit_series":      # the caller changes the stored series in place
+                ser = cal.series_samp
+                r = op[2] % ser.shape[0]
+                flat = ser[r].reshape(-1)
+                if op[1] == "ulp":
+                    flat[0] = np.nextafter(flat[0], np.inf)
+                elif op[1] == "negzero":
+                    flat[-1] = -0.0 if (flat[-1] == 0.0 and not np.signbit(flat[-1])) else -flat[-1]
+                elif op[1] in ("zero_neg", "zero_pos"):   # the same entry is 0.0 in one run and -0.0 in the other
+                    flat[-1] = -0.0 if op[1] == "zero_neg" else 0.0
+                else:
+                    flat[0] = flat[0] + 1.0
+            elif op[0] == "edit_loss":        # one stored loss replaced by a value printed with the same number of characters
+                cal.losses_samp[op[1] % len(cal.losses_samp)] = op[2]
 
 
 def save(cal, folder, fs=None):
@@ -234,19 +254,27 @@ def save(cal, folder, fs=None):
                 cal.create_checkpoint(str(folder))
 
 
-def restore(folder):
+def restore(folder, model=None, raw=False):
     from black_it.calibrator import Calibrator
 
     try:
         with contextlib.redirect_stdout(io.StringIO()), contextlib.redirect_stderr(io.StringIO()):
-            c = Calibrator.restore_from_checkpoint(str(folder), model=cc.tok_model)
+            c = Calibrator.restore_from_checkpoint(folder if raw else str(folder), model=model or cc.tok_model)
         return None, c
     except Exception as e:  # noqa: BLE001
         return f"{type(e).__name__}: {str(e)[:160]}", None
 
 
-def classify(folder, v0, v1):
-    err, c = restore(folder)
+def strip_digests(folder):
+    """Turn the checkpoint in `folder` into one written by a version of the library that recorded no digests."""
+    p = Path(folder) / JSON
+    cp = json.loads(p.read_text())
+    cp.pop("files_sha256", None)
+    p.write_text(json.dumps(cp))
+
+
+def classify(folder, v0, v1, model=None, raw=False):
+    err, c = restore(folder, model, raw)
     if err:
         return "Error", err
     try:
@@ -300,22 +328,36 @@ class Scenario:
         self.has_prev = sc["pre"] is not None
         self.v0 = self.rows0 = self.h0 = None
         cal = make_calibrator(sc["spec"])
+        self.model = cal.model
+        self.oldfmt = bool(sc.get("oldfmt"))
         if self.has_prev:
             cal0 = make_calibrator(sc["spec0"]) if sc["spec0"] else cal
             apply_ops(cal0, sc["pre"])
             save(cal0, self.old)
+            if self.oldfmt:
+                strip_digests(self.old)
             self.v0, self.rows0, self.h0 = full_view(cal0), csv_rows(cal0), h5_rows(cal0)
             self.cal0 = copy.deepcopy(cal0)        # to re-commit the previous checkpoint in place (see run_event)
+            if sc.get("restored"):                 # the run goes on from the object restore_from_checkpoint returns
+                err, cal = restore(self.old, self.model)
+                if err:
+                    raise RuntimeError(f"the previous checkpoint cannot be restored: {err}")
         else:
             self.old.mkdir()
+        if sc["spec0"]:
+            apply_ops(cal, sc.get("pre1", []))
         apply_ops(cal, sc["mid"])
         self.cal = cal
         self.v1, self.rows1, self.h1 = full_view(cal), csv_rows(cal), h5_rows(cal)
         shutil.copytree(self.old, self.full)
         fs = FaultFS(self.full)
-        save(cal, self.full, fs)
+        self.complete_error = None
+        try:
+            save(cal, self.full, fs)
+        except Exception as e:  # noqa: BLE001
+            self.complete_error = f"{type(e).__name__}: {str(e)[:160]}"
         self.events = fs.events
-        self.sanity = {"old": classify(self.old, self.v0, self.v1)[0] if self.has_prev else None}
+        self.sanity = {"old": classify(self.old, self.v0, self.v1, self.model)[0] if self.has_prev else None}
         # token ids
         rid, hid = {}, {}
         tok = lambda d, x: d.setdefault(x, len(d))  # noqa: E731
@@ -354,7 +396,9 @@ class Scenario:
             # very process, as it is when a calibration runs - anything the library remembers per folder is then in play
             shutil.rmtree(d)
             save(self.cal0, d)
-            if classify(d, self.v0, self.v1)[0] != "Old":
+            if self.oldfmt:
+                strip_digests(d)
+            if classify(d, self.v0, self.v1, self.model)[0] != "Old":
                 shutil.rmtree(d)
                 shutil.copytree(self.old, d)
         fs = FaultFS(d, fail_at=i)
@@ -363,7 +407,7 @@ class Scenario:
             save(self.cal, d, fs)
         except Fault:
             raised = True
-        return raised, classify(d, self.v0, self.v1)
+        return raised, classify(d, self.v0, self.v1, self.model)
 
     def run_cut(self, fname, b):
         """files written before `fname` complete, `fname` = first b bytes of its complete new content, rest old"""
@@ -373,7 +417,7 @@ class Scenario:
             if g != TMP:
                 shutil.copy(self.full / g, d / g)
         (d / fname).write_bytes(self.new_bytes(fname)[:b])
-        return classify(d, self.v0, self.v1)
+        return classify(d, self.v0, self.v1, self.model)
 
     def new_bytes(self, fname):
         return (self.full / (JSON if fname == TMP else fname)).read_bytes()
@@ -390,6 +434,10 @@ def csv_cut_point(data, b):
         return "CutHeader", "cut-in-header"
     if b <= hdr + 1:
         return "(CutRows 0 false)", "cut-at-line-boundary"
+    if b == len(data) - 1 and len(lines) > 2:
+        # only the terminator of the last line is missing: its values are all there, its bytes are not (the repaired order
+        # compares bytes, so this is a cut line, not a complete one)
+        return f"(CutRows {len(lines) - 3} true)", "cut-mid-line"
     pos = hdr + 1
     for j, ln in enumerate(lines[1:-1]):
         end = pos + len(ln)  # line j occupies [pos, end), its newline is at `end`
@@ -409,7 +457,10 @@ def cut_positions(rng, fname, data, tier):
         return []
     if tier == "thorough" and fname != H5:
         return list(range(n))
-    want = 24 if tier == "quick" else 256
+    if tier.startswith("r4") and fname in (SCHED, LOSS, TMP, JSON):
+        # the readers of these files were swept byte by byte in the first scenarios; here a few positions per file
+        return sorted({0, 1, n // 2, n - 1} | {rng.below(n) for _ in range(2)})
+    want = {"quick": 24, "r4quick": 12, "r4thorough": 48}.get(tier, 256)
     pos = {0, 1, 2, n - 1, n - 2, n // 2}
     if fname == CSV:
         nl = [i for i, c in enumerate(data) if c == 10]
@@ -599,7 +650,7 @@ def run_fs_scenario(chk, sc, root, recs, stats, expect):
             chk.notes.append(f"scenario {sc['idx']}: components {s.view_bytes_disagree} have equal views but different pickle "
                              "bytes (or the converse); the model's digest comparison may differ from the view comparison there")
         # complete save
-        recs.append({**base, "point": "PComplete", "label": "complete", "obs": classify(s.full, s.v0, s.v1), "s": s,
+        recs.append({**base, "point": "PComplete", "label": "complete", "obs": classify(s.full, s.v0, s.v1, s.model), "s": s,
                      "lit": None, "kind": "complete"})
         # every operation prefix
         for i in range(n):
@@ -671,7 +722,8 @@ def large_file_cuts(chk, stats):
     n = 0
     for fname in (CSV_NAME, "series_samp.h5"):
         new = (b / fname).read_bytes()
-        cuts = [c for c in (len(new) // 2, (1 << 20) + 4097, len(new) - 7) if (1 << 20) < c < len(new)]
+        cuts = [c for c in (len(new) // 2, (1 << 20) + 4097, len(new) - 7, 1 << 20, 2 << 20, (2 << 20) + 1)
+                if (1 << 20) <= c < len(new)]     # incl. exactly at the boundaries of the blocks the digest reads
         for cut in cuts:
             if torn.exists():
                 shutil.rmtree(torn)
@@ -692,10 +744,751 @@ def large_file_cuts(chk, stats):
     return n
 
 
+# ================================================================================================ round 4: generator sweep
+# Scenarios the first three rounds did not reach: a previous checkpoint of another run WITH rows / of a later state /
+# with rows edited in place / of another ensemble size (series file re-created), pairs that differ in one reassigned
+# attribute only, a run continued from the restored object, several parameters / dimensions / sim_length / special values,
+# a previous checkpoint written without digests, SEQUENCES of interrupted saves and retries, faults the code raises by
+# itself in the middle of a file, differently spelled folder paths.  Model: coq/Model/CrashSeq.v (check_case2).
+IMPORTS2 = "From Coq Require Import List.\nFrom BlackIt Require Import Model.CrashSeq."
+SPECIALS = [-0.0, float("nan"), float("inf"), 5e-324, 100000000.5, 0.1 + 0.2, -1e-300, 1e300]
+
+
+class RichLoss:
+    """Loss picked from a palette by the bytes of the simulated ensemble (pure, picklable)."""
+
+    def __init__(self, palette, salt):
+        self.palette, self.salt = list(palette), salt
+
+    def compute_loss(self, sim, real):
+        import hashlib
+
+        h = hashlib.sha256(np.ascontiguousarray(sim, dtype=float).tobytes()).digest()
+        return self.palette[(int.from_bytes(h[:4], "little") + self.salt) % len(self.palette)]
+
+
+def _rich_series(theta, N, seed, D):  # noqa: N803
+    out = np.zeros((N, D))
+    out[0, 0] = theta[0]
+    out[1 % N, 0] = seed
+    for k in range(2, N):
+        out[k, 0] = SPECIALS[(int(seed) + k) % len(SPECIALS)]
+    if D > 1:
+        out[:, 1] = theta[-1]
+        out[N - 1, 1] = SPECIALS[int(seed) % len(SPECIALS)]
+    return out
+
+
+def rich_model_d1(theta, N, seed):  # noqa: N803
+    return _rich_series(theta, N, seed, 1)
+
+
+def rich_model_d2(theta, N, seed):  # noqa: N803
+    return _rich_series(theta, N, seed, 2)
+
+
+MODELS = {1: rich_model_d1, 2: rich_model_d2}
+_WIDE = None
+
+
+def _wide_classes():
+    """Token samplers for any number of parameters (created lazily: black_it comes from the tree under test)."""
+    global _WIDE
+    if _WIDE is None:
+        from black_it.samplers.base import BaseSampler
+
+        def __init__(self, uid, bs, random_state=None, n_params=1):
+            BaseSampler.__init__(self, bs, random_state, max_deduplication_passes=0)
+            self.tok_uid, self.tok_calls, self.n_params = uid, 0, n_params
+
+        def sample_batch(self, batch_size, search_space, existing_points, existing_losses):
+            k = self.tok_calls
+            self.tok_calls += 1
+            base = ((self.tok_uid * 100 + k) * 1000 + len(existing_points)) * 10
+            return np.array([[float(base + r) + c / 16.0 for c in range(self.n_params)] for r in range(batch_size)], dtype=float)
+
+        _WIDE = []
+        for name in "AB":
+            cls = type(f"Wide{name}", (BaseSampler,), {"__init__": __init__, "sample_batch": sample_batch})
+            cls.__module__ = __name__
+            globals()[f"Wide{name}"] = cls
+            _WIDE.append(cls)
+    return _WIDE
+
+
+def make_rich(spec):
+    from black_it.calibrator import Calibrator
+
+    n_par, dim = spec["P"], spec["D"]
+    wide = _wide_classes()
+    samplers = [wide[s["cls"] % 2](s["uid"], s["bs"], s.get("seed"), n_par) for s in spec["samplers"]]
+    with contextlib.redirect_stdout(io.StringIO()):
+        return Calibrator(loss_function=RichLoss(spec["palette"], spec["salt"]),
+                          real_data=np.zeros((spec["real_len"], dim), dtype=spec.get("real_dtype", "float64")),
+                          model=MODELS[dim], parameters_bounds=[[0.0] * n_par, [10.0] * n_par],
+                          parameters_precision=[spec["precision"]] * n_par, ensemble_size=spec["E"], samplers=samplers,
+                          sim_length=spec["N"], convergence_precision=spec.get("prec"), verbose=bool(spec.get("verbose", True)),
+                          random_state=spec["seed"], n_jobs=1)
+
+
+def gen_spec(rng):
+    ns = rng.randint(1, 3)
+    return {"samplers": cc.gen_samplers(rng, ns, 0, 3), "E": rng.randint(1, 2), "seed": rng.below(2**31),
+            "palette": [rng.choice([3.5, 1.25, 0.75, 2.0, 10.0, 0.375, 7.0, 0.0]) for _ in range(rng.randint(3, 6))],
+            "salt": rng.below(1000), "prec": None, "verbose": bool(rng.below(2))}
+
+
+def gen_rich_spec(rng, wide):
+    ns = rng.randint(1, 2)
+    pal = [rng.choice([3.5, 0.1 + 0.2, 1e-300, 1e300, 5e-324, -0.0, float("inf"), float("nan"), 100000000.5, 2.0, 7.25])
+           for _ in range(rng.randint(4, 7))]
+    return {"rich": True, "P": 12 if wide else rng.randint(1, 2), "D": 2 if wide else 1, "N": rng.randint(3, 5),
+            "real_len": rng.randint(2, 6), "real_dtype": rng.choice(["float64", "float32"]),
+            "precision": rng.choice([1.0, 0.25, 0.1]), "E": rng.randint(1, 3),
+            "samplers": [{"cls": rng.below(2), "uid": i, "bs": rng.randint(1, 3), "seed": rng.below(1000) if rng.below(2) else None}
+                         for i in range(ns)],
+            "seed": rng.below(2**31), "palette": pal, "salt": rng.below(1000), "prec": rng.choice([None, 12, 20]),
+            "verbose": bool(rng.below(2))}
+
+
+R4_KINDS = ["other_run_rows", "later_state", "edited_rows", "edited_zero_sign", "other_ensemble", "attr_json", "attr_sampler", "attr_loss",
+            "edit_loss_same_width", "edit_series_new", "restored_run", "digestless", "rich_wide", "rich_special",
+            "seq_same_run", "seq_other_run", "seq_fresh", "natural_faults"]
+
+
+def gen_scenario4(rng, idx, kind):
+    """Scenario descriptions of round 4 (same dictionary layout as gen_scenario, more keys)."""
+    sp = gen_spec(rng)
+    a, b = rng.randint(1, 3), rng.randint(1, 3)
+    sc = {"idx": idx, "kind": kind, "spec": sp, "pre": [["calibrate", a]], "mid": [["calibrate", b]], "spec0": None, "r4": True}
+    if kind in ("other_run_rows", "seq_other_run"):     # the folder holds the checkpoint of a different run, with rows
+        sc["spec0"] = gen_spec(rng)
+        sc["spec0"]["E"] = sp["E"]
+    elif kind == "later_state":                          # ... a LATER checkpoint of the same run (more rows than are saved now)
+        sc["spec0"] = copy.deepcopy(sp)
+        sc["pre"], sc["mid"] = [["calibrate", a + b]], [["calibrate", a]]
+    elif kind == "edited_rows":                          # ... the same rows but for one value changed by one ulp / in sign
+        sc["spec0"] = copy.deepcopy(sp)
+        sc["pre"] = [["calibrate", a], ["edit_series", "ulp", rng.below(8)]]
+        sc["pre1"] = [["calibrate", a]]
+    elif kind == "edited_zero_sign":                     # ... the same rows but for the sign of a zero
+        sc["spec0"] = copy.deepcopy(sp)
+        r = rng.below(8)
+        sc["pre"] = [["calibrate", a], ["edit_series", "zero_neg", r]]
+        sc["pre1"] = [["calibrate", a], ["edit_series", "zero_pos", r]]
+    elif kind == "other_ensemble":                       # ... series of another ensemble size (another trailing shape)
+        sc["spec0"] = copy.deepcopy(sp)
+        sc["spec0"]["E"] = 3 - sp["E"]
+    elif kind == "attr_json":                            # only public attributes stored in the json are reassigned
+        attr = rng.choice([["convergence_precision", rng.choice([0, 3, 12])], ["n_jobs", 2], ["verbose", not sp["verbose"]],
+                           ["saving_folder", "some/folder"], ["random_state", rng.below(1000)]])
+        sc["mid"] = [["set_attr", "cal", attr[0], attr[1]]]
+    elif kind == "attr_sampler":
+        sc["mid"] = [["set_attr", "sampler0", rng.choice(["max_deduplication_passes", "batch_size"]), rng.randint(4, 9)]]
+    elif kind == "attr_loss":
+        sc["mid"] = [["set_attr", "loss", "salt", sp["salt"] + 1 + rng.below(5)]]
+    elif kind == "edit_loss_same_width":                 # csv of the same size, one digit differs
+        sc["mid"] = [["edit_loss", rng.below(8), 4.5]]
+    elif kind == "edit_series_new":                      # the caller edits a stored series row in place, then saves
+        sc["mid"] = [["edit_series", rng.choice(["ulp", "negzero", "value"]), rng.below(8)],
+                     ["set_attr", "cal", "convergence_precision", rng.choice([0, 3, 12])]]   # and reassigns an attribute
+    elif kind == "restored_run":
+        sc["restored"] = True
+    elif kind == "digestless":
+        sc["oldfmt"] = True
+    elif kind in ("rich_wide", "rich_special"):
+        sc["spec"] = gen_rich_spec(rng, kind == "rich_wide")
+        if rng.below(2):
+            sc["restored"] = True
+    elif kind == "seq_fresh":
+        sc["pre"] = None
+    return sc
+
+
+def strip_label(ev_list, i):
+    return "nothing" if i == 0 else ev_name(ev_list[i - 1])
+
+
+class Speller:
+    """The same folder under different spellings (absolute str, Path object, relative str, through a symbolic link).
+    One crash point = one spelling for every restore of that crash point (before and after the crash: anything remembered per
+    spelled path is then in play) and one for the saves; the 16 combinations are cycled through."""
+    HOW = ("str", "Path", "relative", "symlink")
+
+    def __init__(self):
+        self.k = 0
+
+    def advance(self):
+        self.k += 1
+
+    def _spell(self, folder, k):
+        folder = Path(folder)
+        if k == 0:
+            return str(folder)
+        if k == 1:
+            return folder
+        if k == 2:
+            return os.path.relpath(folder)
+        link = folder.parent / (folder.name + "_lnk")
+        if not link.is_symlink():
+            link.symlink_to(folder, target_is_directory=True)
+        return str(link)
+
+    def restore_path(self, folder):
+        k = self.k % 4
+        return self._spell(folder, k), self.HOW[k]
+
+    def save_path(self, folder):
+        k = (self.k + self.k // 4) % 4
+        return self._spell(folder, k), self.HOW[k]
+
+
+def classify_spelled(s, d, sp):
+    path, how = sp.restore_path(d)
+    cls, detail = classify(path, s.v0, s.v1, s.model, raw=True)
+    return cls, detail, how
+
+
+def save_spelled(cal, d, fs, sp):
+    path, how = sp.save_path(d)
+    with contextlib.redirect_stdout(io.StringIO()):
+        if fs is None:
+            cal.create_checkpoint(path)
+        else:
+            with fs.installed():
+                cal.create_checkpoint(path)
+    return how
+
+
+def c_stop(st):
+    if st[0] == "complete":
+        return "SComplete"
+    if st[0] == "event":
+        return f"(SEvent {cnat(st[1])})"
+    return f"(SCut {st[1]} {cbool(st[2])} {st[3]})"
+
+
+def c_case2(s, steps, obs):
+    """steps = [(events, stop)]"""
+    lit = clist([f"({clist([ev_op(e) or 'Close FTmp' for e in evs])}, {c_stop(st)})" for evs, st in steps])
+    return (f"(mkCase2 {cbool(s.has_prev)} {cbool(s.oldfmt)} {cnat(s.t_zrow)} {c_state(s.t_s0)} {c_state(s.t_s1)} {lit} "
+            f"{CLS[obs]})")
+
+
+NATURAL = [
+    # (name, target of the stop: file or None, where the code raises, mutation of the calibrator being saved)
+    ("json:path-object-attribute", TMP, "in_write", lambda c: setattr(c, "saving_folder", Path("some/folder"))),
+    ("json:numpy-scalar-attribute", TMP, "in_write", lambda c: setattr(c, "n_jobs", np.int64(2))),
+    ("pickle:loss-unpicklable-early", LOSS, "in_write", lambda c: setattr(c.loss_function, "a_hook", lambda x: x)),
+    ("pickle:loss-unpicklable-late", LOSS, "in_write",
+     lambda c: (setattr(c.loss_function, "table", list(range(100000))), setattr(c.loss_function, "z_hook", lambda x: x))),
+    ("pickle:sampler-unpicklable", SCHED, "in_write", lambda c: setattr(c.scheduler.samplers[0], "a_hook", lambda x: x)),
+    ("csv:ragged-columns", None, "between", lambda c: setattr(c, "method_samp", c.method_samp[:-1])),
+    ("h5:object-series", None, "in_op", lambda c: setattr(c, "series_samp", c.series_samp.astype(object))),
+]
+
+
+def run_r4_scenario(chk, sc, root, recs, stats, sp):
+    """All crash points of one round-4 scenario. Appends records {case, label, obs, lit, kind...} to recs."""
+    s = Scenario(sc, root)
+    try:
+        kind = sc["kind"]
+        n = len(s.events)
+        base = {"scenario": sc}
+
+        def rec(kind_, label, obs, steps, **kw):
+            recs.append({**base, "kind": kind_, "label": label, "obs": (obs[0], obs[1]), "spelling": obs[2] if len(obs) > 2 else None,
+                         "lit": c_case2(s, steps, obs[0]),
+                         "steps": [{"events": [list(map(str, e)) for e in evs], "stop": list(st)} for evs, st in steps],
+                         "tokens": {"s0": s.t_s0, "s1": s.t_s1, "zrow": s.t_zrow, "has_prev": s.has_prev, "oldfmt": s.oldfmt},
+                         "complete_error": s.complete_error, **kw})
+
+        if kind.startswith("seq_"):
+            run_sequences(chk, s, rec, stats, sp)
+            return s
+        if kind == "natural_faults":
+            run_natural(chk, s, rec, stats, sp)
+            return s
+        rec("complete", "complete", classify_spelled(s, s.full, sp), [(s.events, ("complete",))], raised=False)
+        for i in range(n):
+            sp.advance()
+            d = s.fresh_work()
+            if s.has_prev and i % 2 == 0:
+                shutil.rmtree(d)
+                save_spelled(s.cal0, d, None, sp)
+                if s.oldfmt:
+                    strip_digests(d)
+                if classify_spelled(s, d, sp)[0] != "Old":
+                    shutil.rmtree(d)
+                    shutil.copytree(s.old, d)
+            fs = FaultFS(d.resolve(), fail_at=i)
+            raised = False
+            try:
+                save_spelled(s.cal, d, fs, sp)
+            except Fault:
+                raised = True
+            rec("event", strip_label(s.events, i), classify_spelled(s, d, sp), [(s.events, ("event", i))], raised=raised,
+                event=list(map(str, s.events[i])))
+        for fname in s.order:
+            data = s.new_bytes(fname)
+            for b in cut_positions(chk.rng, fname, data, "r4thorough" if chk.tier == "thorough" else "r4quick"):
+                if b == 0:
+                    st, label = ("cut", FILE_TOK[fname], True, "CutBytes"), f"{fname}:truncated"
+                elif fname == CSV:
+                    ct, lab = csv_cut_point(data, b)
+                    st, label = ("cut", "FCsv", False, ct), f"{fname}:{lab}"
+                else:
+                    st, label = ("cut", FILE_TOK[fname], False, "CutBytes"), f"{fname}:cut"
+                sp.advance()
+                d = s.fresh_work()
+                for g in s.order[:s.order.index(fname)]:
+                    if g != TMP:
+                        shutil.copy(s.full / g, d / g)
+                (d / fname).write_bytes(data[:b])
+                rec("cut", label, classify_spelled(s, d, sp), [(s.events, st)], file=fname, byte=b, raised=True)
+    finally:
+        s.cleanup()
+    return s
+
+
+def observe_save(s, d, tag):
+    """The file operations of an uninterrupted save of s1 on a copy of folder d (and the exception it ends with, if any)."""
+    probe = s.root / f"probe_{tag}"
+    if probe.exists():
+        shutil.rmtree(probe)
+    shutil.copytree(d, probe, symlinks=True)
+    fs = FaultFS(probe.resolve())
+    err = None
+    try:
+        save(s.cal, probe, fs)
+    except Exception as e:  # noqa: BLE001
+        err = f"{type(e).__name__}: {str(e)[:120]}"
+    cls = classify(probe, s.v0, s.v1, s.model)
+    shutil.rmtree(probe)
+    return fs.events, err, cls
+
+
+def run_sequences(chk, s, rec, stats, sp):
+    """An interrupted save, then a second save of the same state on what the first one left: completed, or interrupted too
+    (then sometimes a third one that completes)."""
+    n = len(s.events)
+    quick = chk.tier == "quick"
+    for i in range(n):
+        d = s.fresh_work()
+        try:
+            save(s.cal, d, FaultFS(d.resolve(), fail_at=i))
+        except Fault:
+            pass
+        first = s.root / "after_first"
+        if first.exists():
+            shutil.rmtree(first)
+        shutil.copytree(d, first)
+        ev2, err2, cls2 = observe_save(s, first, "a")
+        lab_i = strip_label(s.events, i)
+        stats["seq:retry-raises-by-itself" if err2 else "seq:retry-completes"] += 1
+        rec("seq-retry", f"{lab_i} | retry", cls2 + ("str",), [(s.events, ("event", i)), (ev2, ("complete",))], raised=bool(err2),
+            retry_error=err2, seq=[i, None])
+        js = list(range(len(ev2))) if not quick else sorted({chk.rng.below(max(1, len(ev2))) for _ in range(3)})
+        for j in js:
+            if j >= len(ev2):
+                continue
+            shutil.rmtree(d)
+            shutil.copytree(first, d)
+            try:
+                save(s.cal, d, FaultFS(d.resolve(), fail_at=j))
+            except Fault:
+                pass
+            except Exception:  # noqa: BLE001
+                pass
+            lab_j = strip_label(ev2, j)
+            sp.advance()
+            steps = [(s.events, ("event", i)), (ev2, ("event", j))]
+            rec("seq-crash-crash", f"{lab_i} | {lab_j}", classify_spelled(s, d, sp), steps, raised=True, seq=[i, j])
+            if chk.rng.below(3) == 0:
+                ev3, err3, cls3 = observe_save(s, d, "b")
+                stats["seq:third-raises-by-itself" if err3 else "seq:third-completes"] += 1
+                rec("seq-retry", f"{lab_i} | {lab_j} | retry", cls3 + ("str",), steps + [(ev3, ("complete",))], raised=bool(err3),
+                    retry_error=err3, seq=[i, j, None])
+        shutil.rmtree(first)
+
+
+def run_natural(chk, s, rec, stats, sp):
+    """Faults the code raises by itself while a file is being written (no injection)."""
+    for name, fname, where, mutate in NATURAL:
+        sp.advance()
+        d = s.fresh_work()
+        cal = copy.deepcopy(s.cal)
+        mutate(cal)
+        fs = FaultFS(d.resolve())
+        err = None
+        try:
+            save(cal, d, fs)
+        except Exception as e:  # noqa: BLE001
+            err = f"{type(e).__name__}: {str(e)[:120]}"
+        evs = fs.events
+        if where == "in_write":
+            size = (d / fname).stat().st_size if (d / fname).exists() else 0
+            st = ("cut", FILE_TOK[fname], size == 0, "CutBytes")
+        elif where == "in_op":
+            st = ("event", len(evs) - 1)
+        else:
+            st = ("event", len(evs))
+        stats[f"natural:{name}:{'raised' if err else 'NOT-raised'}"] += 1
+        rec("natural", f"natural:{name}", classify_spelled(s, d, sp), [(s.events, st)], raised=bool(err), natural_error=err,
+            observed_events=[list(map(str, e)) for e in evs])
+
+
+def judge_r4(chk, recs, bad, stats):
+    """Direct oracle of the property on the round-4 records, then the model correspondence."""
+    for i, r in enumerate(recs):
+        cls, detail = r["obs"]
+        sc = r["scenario"]
+        stats[f"r4:{sc['kind']}:{r['kind']}:{cls}"] += 1
+        if r.get("spelling"):
+            stats[f"r4:spelling:{r['spelling']}"] += 1
+        case = {"backend": "fs4", "scenario": sc, "kind": r["kind"], "label": r["label"], "steps": r["steps"],
+                "file": r.get("file"), "byte": r.get("byte"), "seq": r.get("seq")}
+        fail = None
+        completes = r["kind"] == "complete" or (r["kind"] == "seq-retry" and not r["raised"])
+        if cls == "Hybrid" and not completes:
+            if sc.get("oldfmt"):
+                fail = ({"kind": "hybrid_over_digestless_checkpoint", "crash_after": r["label"]},
+                        f"oracle:a save on top of a checkpoint written WITHOUT digests (older version of the library), interrupted "
+                        f"at [{r['label']}], is restored silently as neither the previous nor the new checkpoint ({detail})")
+            else:
+                fail = ({"kind": "hybrid_restore", "crash_after": r["label"], "scenario": sc["kind"]},
+                        f"oracle:restore after a save interrupted at [{r['label']}] ({sc['kind']}) returned silently a state that "
+                        f"is neither the previous nor the new checkpoint ({detail})")
+        elif completes and cls != "New" and not (r["kind"] == "complete" and r.get("complete_error")):
+            fail = ({"kind": "complete_save_not_restored", "class": cls, "scenario": sc["kind"]},
+                    f"oracle:restore after a save that completed ([{r['label']}], {sc['kind']}) is {cls} ({detail})")
+        elif r["kind"] == "complete" and r.get("complete_error"):
+            fail = ({"kind": "complete_save_raises", "scenario": sc["kind"]},
+                    f"oracle:the uninterrupted save of this scenario raises: {r['complete_error']}")
+        if fail:
+            chk.violation(fail[0], {"failed": fail[1], "case": case, "observed": {"class": cls, "detail": detail,
+                                                                                  "spelling": r.get("spelling")},
+                                    "tokens": r["tokens"]})
+        elif r["kind"] in ("event", "natural") and not r["raised"]:
+            chk.violation({"kind": "correspondence", "name": "fault-not-propagated", "point": r["label"], "scenario": sc["kind"]},
+                          {"failed": "correspondence:the exception raised inside a file operation of save_calibrator_state did not "
+                                     "come out of create_checkpoint", "case": case, "observed": {"class": cls, "detail": detail}},
+                          no_input=True)
+        elif i in bad:
+            chk.violation({"kind": "correspondence", "name": "load_class2", "point": r["label"], "scenario": sc["kind"]},
+                          {"failed": "correspondence:CrashSeq.check_case2 (the operations observed in one of the saves of the sequence "
+                                     "are not the ones the model predicts for the folder that save started on, or the class observed "
+                                     "is not in the model's class set; the property oracle found no failing input)",
+                           "case": case, "observed": {"class": cls, "detail": detail}, "tokens": r["tokens"], "coq_case": r["lit"]},
+                          no_input=True)
+
+
+def large_same_size(chk, stats):
+    """Two checkpoints whose csv files have the SAME size and differ in one digit - in the first MiB, in the middle, in the
+    last bytes: the csv of one over the files of the other must not be restored (a digest that samples part of a file, or
+    trusts size / time stamps, would)."""
+    from black_it.loss_functions.minkowski import MinkowskiLoss
+    from black_it.samplers.random_uniform import RandomUniformSampler
+    from black_it.schedulers.round_robin import RoundRobinScheduler
+    from black_it.utils.json_pandas_checkpointing import load_calibrator_state, save_calibrator_state
+
+    g = np.random.default_rng(int(chk.rng.below(2**31)))
+    n = 60000
+    root = SCRATCH / f"{os.getpid()}" / "c06_same_size"
+    if root.exists():
+        shutil.rmtree(root)
+    params, losses, series = g.random((n, 2)), np.round(g.random(n), 6) + 1.0, g.random((n, 1, 2, 1))
+    sched, loss = RoundRobinScheduler([RandomUniformSampler(batch_size=4)]), MinkowskiLoss()
+    gstate = np.random.default_rng(0).bit_generator.state
+
+    def save(folder, lo):
+        save_calibrator_state(folder, np.array([[0.0, 0.0], [1.0, 1.0]]), np.array([0.0001, 0.0001]), np.zeros((2, 1)), 1, 2, 1, None,
+                              False, None, 0, gstate, "m", sched, loss, 1, n, 1, params, lo, series,
+                              np.zeros(n, dtype=int), np.zeros(n, dtype=int))
+
+    a = root / "a"
+    count = 0
+    rows = (("first-MiB", 5), ("middle", n // 2), ("last-bytes", n - 1))
+    for _, row in rows:
+        losses[row] = 1.25                               # 1.25 -> 2.25: the same number of characters, exactly
+    with contextlib.redirect_stdout(io.StringIO()):
+        save(a, losses)
+    size_a = (a / CSV_NAME).stat().st_size
+    for where, row in rows:
+        lo = losses.copy()
+        lo[row] = 2.25
+        b, torn = root / f"b_{where}", root / f"torn_{where}"
+        shutil.copytree(a, b)
+        with contextlib.redirect_stdout(io.StringIO()):
+            save(b, lo)
+        if (b / CSV_NAME).stat().st_size != size_a:
+            stats["large-same-size:size-differs"] += 1
+            continue
+        for src, dst, what in ((a, b, "old csv under new json"), (b, a, "new csv under old json")):
+            if torn.exists():
+                shutil.rmtree(torn)
+            shutil.copytree(dst, torn)
+            shutil.copy(src / CSV_NAME, torn / CSV_NAME)
+            os.utime(torn / CSV_NAME, ns=((dst / CSV_NAME).stat().st_atime_ns, (dst / CSV_NAME).stat().st_mtime_ns))
+            count += 1
+            stats["large-same-size"] += 1
+            try:
+                st = load_calibrator_state(torn, 1)
+            except Exception:  # noqa: BLE001
+                continue
+            chk.violation({"kind": "hybrid_restore", "crash_after": f"{CSV_NAME}:same-size-other-content:{where}"},
+                          {"failed": "oracle:hybrid", "detail": f"{what}: the two files have the same size ({size_a} bytes) and time "
+                           f"stamps and differ in one digit ({where}, row {row}); the folder restores silently with loss[{row}]="
+                           f"{st[18][row]!r} and the other checkpoint's json / digests",
+                           "case": {"large_same_size": {"where": where, "direction": what}}})
+    shutil.rmtree(root, ignore_errors=True)
+    return count
+
+
+# ---------------------------------------------------------------- SQLite, round 4
+def sql_change_field(st, k, rng):
+    """A copy of state `st` (sql_state layout) in which only field k differs."""
+    s1 = [x.copy() if isinstance(x, np.ndarray) else copy.deepcopy(x) for x in st]
+    v = s1[k]
+    if isinstance(v, np.ndarray):
+        if v.size == 0:
+            s1[k] = np.zeros((1,) + v.shape[1:], dtype=v.dtype)
+        elif v.dtype.kind == "f":
+            flat = s1[k].reshape(-1)
+            flat[rng.below(flat.size)] = np.nextafter(flat[0], np.inf) if rng.below(2) else -flat[0]
+        else:
+            s1[k] = v + 1
+    elif isinstance(v, bool):
+        s1[k] = not v
+    elif v is None:
+        s1[k] = 3
+    elif isinstance(v, int):
+        s1[k] = v + 1
+    elif isinstance(v, float):
+        s1[k] = None
+    elif isinstance(v, str):
+        s1[k] = v + "x"
+    elif isinstance(v, dict):
+        s1[k] = np.random.default_rng(rng.below(1000) + 1).bit_generator.state
+    elif isinstance(v, list):
+        s1[k] = v + ["one-more"]
+    return s1
+
+
+def sql_repr_state(rng, tag, how):
+    """A state whose arrays come in another representation (they must be stored and given back as they are)."""
+    st = sql_state(rng, tag)
+    n = max(1, st[14])
+    g = np.random.default_rng(rng.below(2**31))
+    e = st[3]
+    st[14] = n
+    st[15], st[16], st[17], st[18], st[19] = g.random((n, 2)), g.random(n), g.random((n, e, 5, 2)), np.arange(n), np.arange(n) % 2
+    if how == "float32":
+        st[17], st[16] = st[17].astype(np.float32), st[16].astype(np.float32)
+    elif how == "fortran":
+        st[15], st[17] = np.asfortranarray(st[15]), np.asfortranarray(st[17])
+    elif how == "strided":
+        st[16], st[15] = g.random(2 * n)[::2], g.random((n, 4))[:, ::2]
+    elif how == "int32":
+        st[18], st[19] = st[18].astype(np.int32), st[19].astype(np.int32)
+    elif how == "readonly":
+        for k in (15, 16, 17, 18, 19):
+            st[k].flags.writeable = False
+    elif how == "special":
+        st[16][0] = np.nan
+        st[17].reshape(-1)[:4] = [-0.0, np.inf, 5e-324, 1e8 + 0.5]
+        st[15][0, 0] = -0.0
+    return st
+
+
+SQL_NATURAL = [
+    ("path-object-saving-folder", lambda st: st.__setitem__(8, Path("some/folder"))),
+    ("seed-beyond-int64", lambda st: st.__setitem__(9, 2**70)),
+    ("params-as-list", lambda st: st.__setitem__(15, st[15].tolist())),
+    ("series-as-list", lambda st: st.__setitem__(17, st[17].tolist())),
+    ("dict-model-name", lambda st: st.__setitem__(11, {"name": "model"})),
+]
+
+
+def sql_round4(chk, stats, quick):
+    rng = chk.rng
+    folder = SCRATCH / str(os.getpid()) / "sql4" / "db"
+    lits, recs = [], []
+    try:
+        # (1) successive checkpoints that differ in ONE field: the completed save must be given back, a failed one must not
+        s0 = sql_state(chk_rng(rng.below(2**31)), 0)
+        s0[14] = max(s0[14], 1)
+        for k in range(len(s0)):
+            s1 = sql_change_field(s0, k, rng)
+            ev, raised, out, detail = sql_run(folder, s0, s1, None)
+            stats[f"sqlite4:one-field:complete:{out}"] += 1
+            if out != "SNew":
+                chk.violation({"kind": "sqlite_complete_save_not_restored", "outcome": out, "only_field_changed": k},
+                              {"failed": f"oracle:two checkpoints that differ in field {k} only: load after the complete save of the "
+                                         f"second is {out} ({detail})", "case": {"backend": "sqlite4", "one_field": k}})
+            ci = [i for i, e in enumerate(ev) if e[0] == "commit"]
+            if ci:
+                ev2, raised, out, detail = sql_run(folder, s0, s1, (ci[0], False))
+                stats[f"sqlite4:one-field:fault-at-commit:{out}"] += 1
+                if out != "SOld":
+                    chk.violation({"kind": "sqlite_previous_lost", "statement": "commit", "only_field_changed": k},
+                                  {"failed": f"oracle:save of a checkpoint that differs in field {k} only fails at COMMIT: load gives {out} "
+                                             f"({detail})", "case": {"backend": "sqlite4", "one_field": k, "fault": "commit"}})
+        # (2) arrays in other representations
+        for how in ("float32", "fortran", "strided", "int32", "readonly", "special"):
+            a, b = sql_repr_state(chk_rng(rng.below(2**31)), 0, how), sql_repr_state(chk_rng(rng.below(2**31)), 1, how)
+            ev, raised, out, detail = sql_run(folder, a, b, None)
+            stats[f"sqlite4:repr:{how}:{out}"] += 1
+            if out != "SNew":
+                chk.violation({"kind": "sqlite_complete_save_not_restored", "outcome": out, "representation": how},
+                              {"failed": f"oracle:arrays given as {how}: load after a complete save is {out} ({detail})",
+                               "case": {"backend": "sqlite4", "representation": how}})
+            for i in range(len(ev)):
+                ev2, raised, out, detail = sql_run(folder, a, b, (i, False))
+                stats[f"sqlite4:repr:{how}:fault:{out}"] += 1
+                if raised and out != "SOld":
+                    chk.violation({"kind": "sqlite_previous_lost", "statement": f"{i}", "representation": how},
+                                  {"failed": f"oracle:arrays given as {how}: failed save at statement {i} leaves {out} ({detail})",
+                                   "case": {"backend": "sqlite4", "representation": how, "fault": i}})
+        # (3) faults sqlite3 raises by itself while binding the row
+        for name, mutate in SQL_NATURAL:
+            a, b = sql_state(chk_rng(rng.below(2**31)), 0), sql_repr_state(chk_rng(rng.below(2**31)), 1, "plain")
+            mutate(b)
+            import black_it.utils.sqlite3_checkpointing as sq
+
+            if folder.parent.exists():
+                shutil.rmtree(folder.parent)
+            sq.save_calibrator_state(folder, *a)
+            err = None
+            try:
+                sq.save_calibrator_state(folder, *b)
+            except Exception as e:  # noqa: BLE001
+                err = f"{type(e).__name__}: {str(e)[:100]}"
+            try:
+                out = "SOld" if sql_equal(sq.load_calibrator_state(folder), a) else "SOther"
+                detail = None
+            except Exception as e:  # noqa: BLE001
+                out, detail = "SErr", f"{type(e).__name__}: {str(e)[:100]}"
+            stats[f"sqlite4:natural:{name}:{'raised' if err else 'completed'}:{out}"] += 1
+            if err and out != "SOld":
+                chk.violation({"kind": "sqlite_previous_lost", "statement": f"natural:{name}"},
+                              {"failed": f"oracle:the save raised by itself ({err}) and the previous checkpoint is no longer given back: "
+                                         f"{out} ({detail})", "case": {"backend": "sqlite4", "natural": name}})
+        # (4) sequences: failed saves one after the other, then (sometimes) one that completes
+        for rep in range(2 if quick else 8):
+            seed0, seed1 = rng.below(2**31), rng.below(2**31)
+            for prev in (True, False):
+                a = sql_state(chk_rng(seed0), 0) if prev else None
+                b = sql_state(chk_rng(seed1), 1)
+                ev, _, _, _ = sql_run(folder, a, b, None)
+                ns = len(ev)
+                seqs = [[(i, af), (j, bf)] for i in range(ns) for af in (False, True) for j, bf in
+                        [(rng.below(ns), bool(rng.below(2))), (ns - 1, False)]]
+                for faults in seqs:
+                    for then_complete in (False, True):
+                        out, detail, raised = sql_run_seq(folder, a, b, faults, then_complete)
+                        recs.append({"prev": prev, "faults": faults, "then": then_complete, "out": out, "detail": detail, "events": ev,
+                                     "seed0": seed0, "seed1": seed1, "raised": raised})
+                        fl = clist([f"({cnat(i)}, {cbool(x)})" for i, x in faults])
+                        lits.append(f"(mkSqlSeq {cbool(prev)} {clist([sql_stmt(e) for e in ev])} {fl} {cbool(then_complete)} {out})")
+    finally:
+        shutil.rmtree(SCRATCH / str(os.getpid()) / "sql4", ignore_errors=True)
+    bad, errors = chk.coq_mismatches("C06sqlseq", IMPORTS2, "sqlseq_check", "sqlseq", lits, shard=400)
+    bad = set(bad)
+    for i, r in enumerate(recs):
+        stats[f"sqlite4:seq:{'then-complete' if r['then'] else 'failures-only'}:{r['out']}"] += 1
+        case = {"backend": "sqlite4", "s0": r["prev"], "seed0": r["seed0"], "seed1": r["seed1"], "faults": [list(f) for f in r["faults"]],
+                "then_complete": r["then"]}
+        committed = any(af and r["events"][i][0] == "commit" for i, af in r["faults"])
+        fail = None
+        if r["then"] and r["out"] != "SNew":
+            fail = ({"kind": "sqlite_complete_save_not_restored", "outcome": r["out"], "after_failed_saves": True},
+                    f"oracle:a save that completes after the failed saves {r['faults']} is loaded as {r['out']} ({r['detail']})")
+        elif not r["then"] and r["prev"] and r["out"] not in (("SOld", "SNew") if committed else ("SOld",)):
+            fail = ({"kind": "sqlite_previous_lost", "statement": "sequence-of-failed-saves"},
+                    f"oracle:after the failed saves {r['faults']} the previous checkpoint is not given back: {r['out']} ({r['detail']})")
+        elif r["out"] == "SOther":
+            fail = ({"kind": "sqlite_hybrid"}, "oracle:the loaded row is neither the previous nor the new checkpoint")
+        if fail:
+            chk.violation(fail[0], {"failed": fail[1], "case": case, "observed": {"outcome": r["out"], "detail": r["detail"]}})
+        elif not all(r["raised"]):
+            chk.violation({"kind": "correspondence", "name": "sql-fault-not-propagated", "statement": "sequence"},
+                          {"failed": "correspondence:an exception injected into a statement of the SQLite save did not come out of "
+                                     "save_calibrator_state", "case": case}, no_input=True)
+        elif i in bad:
+            chk.violation({"kind": "correspondence", "name": "sqlseq_check", "faults": str(r["faults"])},
+                          {"failed": "correspondence:CrashSeq.sqlseq_check (model and implementation disagree on the outcome of this "
+                                     "sequence of failed saves)", "case": case, "observed": {"outcome": r["out"]},
+                           "coq_case": lits[i]}, no_input=True)
+    for e in errors:
+        chk.violation({"kind": "correspondence", "name": "coqc-sqlseq"}, {"failed": "correspondence:coqc", "detail": e}, no_input=True)
+    return len(recs), len(bad)
+
+
+def sql_run_seq(folder, s0, s1, faults, then_complete):
+    import black_it.utils.sqlite3_checkpointing as sq
+
+    if Path(folder).parent.exists():
+        shutil.rmtree(Path(folder).parent)
+    if s0 is not None:
+        sq.save_calibrator_state(folder, *s0)
+    raised = []
+    for f in faults:
+        px = SqlProxy(*f)
+        sq.sqlite3 = px
+        try:
+            sq.save_calibrator_state(folder, *s1)
+            raised.append(False)
+        except Fault:
+            raised.append(True)
+        finally:
+            sq.sqlite3 = px.real
+    if then_complete:
+        sq.save_calibrator_state(folder, *s1)
+    try:
+        loaded = sq.load_calibrator_state(folder)
+        out = "SOld" if (s0 is not None and sql_equal(loaded, s0)) else "SNew" if sql_equal(loaded, s1) else "SOther"
+        detail = None
+    except Exception as e:  # noqa: BLE001
+        out, detail = "SErr", f"{type(e).__name__}: {str(e)[:120]}"
+    return out, detail, raised
+
+
+def run_round4(chk, stats):
+    """The scenarios of the generator sweep. Returns the coverage counters."""
+    rng = chk.rng
+    quick = chk.tier == "quick"
+    root = SCRATCH / str(os.getpid()) / "r4"
+    sp = Speller()
+    recs = []
+    kinds = list(R4_KINDS) if quick else R4_KINDS * 2
+    n_extra = large_same_size(chk, stats)
+    cwd = os.getcwd()
+    try:
+        root.mkdir(parents=True, exist_ok=True)
+        os.chdir(root)                       # relative spellings are relative to the scratch area
+        for i, kind in enumerate(kinds):
+            run_r4_scenario(chk, gen_scenario4(rng, 1000 + i, kind), root / f"sc{i}", recs, stats, sp)
+    finally:
+        os.chdir(cwd)
+        shutil.rmtree(root, ignore_errors=True)
+    bad, errors = chk.coq_mismatches("C06r4", IMPORTS2, "check_case2", "case2", [r["lit"] for r in recs], shard=300)
+    bad = set(bad)
+    judge_r4(chk, recs, bad, stats)
+    for e in errors:
+        chk.violation({"kind": "correspondence", "name": "coqc-r4"}, {"failed": "correspondence:coqc", "detail": e}, no_input=True)
+    n_sql, bad_sql = sql_round4(chk, stats, quick)
+    return {"evaluations": len(recs) + n_sql + n_extra, "disagreements": len(bad) + bad_sql,
+            "nontrivial": sum(1 for r in recs if r["label"] not in ("nothing", "complete")) + n_sql,
+            "samples": [{"scenario": r["scenario"]["kind"], "label": r["label"], "obs": r["obs"][0]} for r in recs[:: max(1, len(recs) // 5)]][:5]}
+
+
 def replay_one(chk, rep):
     """Re-run the single crash point stored in a replay file."""
     case = rep["case"]
     root = SCRATCH / str(os.getpid()) / "replay"
+    if case.get("backend") in ("fs4", "sqlite4") or "large_same_size" in case:
+        return replay_r4(chk, case, root)
     if case.get("backend") == "sqlite":
         ev, raised, out, detail = sql_run(root / "db", case["s0"] and sql_state(chk_rng(case["seed0"]), 0),
                                           sql_state(chk_rng(case["seed1"]), 1), tuple(case["fault"]) if case["fault"] else None)
@@ -710,11 +1503,45 @@ def replay_one(chk, rep):
         elif case["kind"] == "cut":
             obs = s.run_cut(case["file"], case["byte"])
         else:
-            obs = classify(s.full, s.v0, s.v1)
+            obs = classify(s.full, s.v0, s.v1, s.model)
     finally:
         s.cleanup()
     print(f"replay: crash point {case['label']} -> {obs[0]} {obs[1] or ''}")
     return 1 if obs[0] == "Hybrid" or (case["kind"] == "complete" and obs[0] != "New") else 0
+
+
+def replay_r4(chk, case, root):
+    """Re-run one round-4 case."""
+    stats = Counter()
+    if "large_same_size" in case:
+        before = len(chk.violations)
+        large_same_size(chk, stats)
+        return 1 if len(chk.violations) > before else 0
+    if case.get("backend") == "sqlite4":
+        before = len(chk.violations)
+        sql_round4(chk, stats, True)
+        print(f"replay sqlite4: the SQLite scenarios of round 4 were re-run; new violations: {len(chk.violations) - before}")
+        return 1 if len(chk.violations) > before else 0
+    recs = []
+    cwd = os.getcwd()
+    try:
+        root.mkdir(parents=True, exist_ok=True)
+        os.chdir(root)
+        run_r4_scenario(chk, case["scenario"], root / "sc", recs, stats, Speller())
+    finally:
+        os.chdir(cwd)
+        shutil.rmtree(root, ignore_errors=True)
+    hits = [r for r in recs if r["kind"] == case["kind"] and r["label"] == case["label"] and r.get("byte") == case.get("byte")
+            and r.get("seq") == case.get("seq")]
+    bad = 0
+    for r in hits:
+        completes = r["kind"] == "complete" or (r["kind"] == "seq-retry" and not r["raised"])
+        print(f"replay: [{r['label']}] ({r['scenario']['kind']}) -> {r['obs'][0]} {r['obs'][1] or ''}")
+        if (r["obs"][0] == "Hybrid" and not completes) or (completes and r["obs"][0] != "New"):
+            bad = 1
+    if not hits:
+        print("replay: the crash point of the replay file was not reached again")
+    return bad
 
 
 def chk_rng(seed):
@@ -847,25 +1674,35 @@ def run(chk, replay=None):
     for e in serrors:
         chk.violation({"kind": "correspondence", "name": "coqc-sql"}, {"failed": "correspondence:coqc", "detail": e}, no_input=True)
 
+    r4 = run_round4(chk, stats)
+
     distinct = {(r["scenario"]["idx"], r["point"], r.get("byte")) for r in recs}
     nontrivial = {(r["scenario"]["idx"], r["point"], r.get("byte")) for r in recs
                   if r["kind"] != "complete" and r["label"] != "nothing"}
     cov = {
-        "evaluations": len(recs) + len(sql_recs),
-        "distinct": len(distinct) + len(sql_recs),
-        "distinct_nontrivial": len(nontrivial) + sum(1 for r in sql_recs if r["fault"] is not None),
+        "evaluations": len(recs) + len(sql_recs) + r4["evaluations"],
+        "distinct": len(distinct) + len(sql_recs) + r4["evaluations"],
+        "distinct_nontrivial": len(nontrivial) + sum(1 for r in sql_recs if r["fault"] is not None) + r4["nontrivial"],
         "rule": "one evaluation = one crash point of one (s0, s1) pair: save interrupted by an exception at a file operation, or "
                 "a file of the completed save cut at a byte over the previous files (quick: 24 positions per file incl. 0, 1, "
                 "every csv line boundary +-1, end-1; thorough: every byte of json/csv/pickles, 256 of the h5), then the real "
                 "restore_from_checkpoint, classified by full-state comparison; pairs: successive checkpoints of one run (0-3 then "
                 "1-3 more batches, sometimes a changed sampler line-up), first save into an empty folder, re-save without new "
                 "rows, save over the row-less checkpoint of another run; SQLite: exception instead of / right after each "
-                "statement, with and without a previous row. non-trivial = the folder was actually modified before the crash",
+                "statement, with and without a previous row. non-trivial = the folder was actually modified before the crash. "
+                "Round 4 (model CrashSeq.v, check_case2): the same crash points on pairs where the folder holds another run with "
+                "rows / a later state / edited rows / another ensemble size (series file re-created), pairs differing in one "
+                "reassigned attribute, a run continued from the restored object, 12 parameters / 2 dimensions / sim_length / "
+                "special values, a previous checkpoint without digests, two and three saves in sequence (crash, then retry or "
+                "second crash), faults raised by json / pickle / pandas / h5py themselves, restore and save paths spelled as "
+                "str / Path / relative / symlink; SQLite: pairs differing in one field, array representations, faults raised by "
+                "sqlite3 itself, sequences of failed saves",
+        "round4": r4,
         "write_order_detected": variant,
         "samples": [{k: r[k] for k in ("label", "point", "obs")} | {"scenario": r["scenario"]["kind"]}
                     for r in recs[:: max(1, len(recs) // 4)]][:4],
-        "traces_validated_against_impl": len(recs) - len(bad) + len(sql_recs) - len(sbad),
-        "model_impl_disagreements": len(bad) + len(sbad),
+        "traces_validated_against_impl": len(recs) - len(bad) + len(sql_recs) - len(sbad) + r4["evaluations"] - r4["disagreements"],
+        "model_impl_disagreements": len(bad) + len(sbad) + r4["disagreements"],
         "hybrid_crash_points_observed": dict(hybrid_points),
         "distribution": dict(sorted(stats.items())),
     }
